@@ -64,7 +64,6 @@ Proof.
   rewrite Z. cbn. lia.
 Qed.
 
-Definition has_demand (demands : list string) (d : string) : bool := existsb (demand_matches d) demands.
 
 Theorem user_devices_fst devs demands : demands_unique demands ->
   map fst (user_devices devs demands) = filter (has_demand demands) devs.
